@@ -112,6 +112,33 @@ CxSels(C, T, sels, i) ==
        IN here + CxSels(C, T, sels, i + 1)
 
 ----------------------------------------------------------------------------
+(* DevOmittedVarRuleError: today's rule evaluation (VisitorContext::param_value) reports *)
+(* "Variable is not defined" when a rule's argument is given by a variable that has      *)
+(* neither a supplied value nor a variable default -- although the request is valid      *)
+(* (5.8.5: a nullable variable may feed a non-null argument that has a default) and      *)
+(* executes with the argument's default.  The request is then refused whatever the       *)
+(* limits are.  CxErr follows the traversal of CxSels (same type bookkeeping, same       *)
+(* deviation switches) and says whether some rule evaluation hits such a variable.       *)
+UndefinedVarArg(C, s, a) ==
+  HasArg(s, a) /\ ArgVal(s, a).k = "var" /\ ~Supplied(C, ArgVal(s, a).name)
+  /\ ~(HasVarDef(C, ArgVal(s, a).name) /\ VarDef(C, ArgVal(s, a).name).hasDefault)
+RECURSIVE CxErr(_, _, _, _)
+CxErr(C, T, sels, i) ==
+  IF i > Len(sels) THEN FALSE
+  ELSE LET s == sels[i]
+           here ==
+             IF s.k = "field" THEN
+               IF IsTypename(s) THEN FALSE
+               ELSE LET known == HasField(C, T, s.name)
+                        ft    == IF known THEN NamedOf(C.ts.types[T].fields[s.name].ty) ELSE ""
+                        rule  == IF known /\ C.rules THEN C.ts.types[T].fields[s.name].rule ELSE DefaultRule
+                    IN (rule.k = "lin" /\ rule.arg # "" /\ UndefinedVarArg(C, s, rule.arg)) \/ CxErr(C, ft, s.sels, 1)
+             ELSE IF s.k = "inline" THEN CxErr(C, IF s.on = "" THEN T ELSE s.on, s.sels, 1)
+             ELSE IF ~HasFrag(C, s.name) THEN FALSE
+             ELSE CxErr(C, IF "DevSpreadNoTypePush" \in C.dev THEN T ELSE Frag(C, s.name).on, Frag(C, s.name).sels, 1)
+       IN here \/ CxErr(C, T, sels, i + 1)
+
+----------------------------------------------------------------------------
 (* Nesting (what limit_recursive_depth bounds) and MaxDirectives.           *)
 RECURSIVE NestSels(_, _, _)
 NestSels(C, sels, i) ==
@@ -152,7 +179,11 @@ Measure(C, kind) == CASE kind = "depth"      -> Depth(C)
                       [] kind = "directives" -> MaxDirectives(C)
 LimitKinds == {"depth", "complexity", "recursive", "directives"}
 \* limits: kind -> Int, a negative value = not configured
-MustReject(C, limits) == \E k \in LimitKinds : limits[k] >= 0 /\ Measure(C, k) > limits[k]
+RuleError(C) == \E j \in OpIdx(C) : CxErr(OpCtx(C, j), RootType(OpCtx(C, j)), C.doc.ops[j].sels, 1)
+Measures(C) == [k \in LimitKinds |-> Measure(C, k)]
+\* M = Measures(C), computed once per document and configuration
+Exceeds(M, limits) == \E k \in LimitKinds : limits[k] >= 0 /\ M[k] > limits[k]
+MustReject(C, limits) == Exceeds(Measures(C), limits) \/ ("DevOmittedVarRuleError" \in C.dev /\ RuleError(C))
 
 ----------------------------------------------------------------------------
 (* Trigger predicates of the deviations (the inputs on which each can show) *)
@@ -176,5 +207,6 @@ HasTypename(C, sels, i) ==
           ELSE IF s.k = "inline" THEN HasTypename(C, s.sels, 1)
           ELSE HasTypename(C, SpreadSels(C, s), 1)
        \/ HasTypename(C, sels, i + 1)
+TriggerOmittedVarRuleError(C) == RuleError([C EXCEPT !.dev = {}]) \/ RuleError([C EXCEPT !.dev = {"DevSpreadNoTypePush"}])
 TriggerTypenameNotCounted(C) == \E j \in OpIdx(C) : HasTypename(C, C.doc.ops[j].sels, 1)
 =============================================================================
